@@ -74,18 +74,27 @@ func values(t syntax.TypeId) []string {
 		if len(e) > 2 {
 			out = append(out, "[null,"+e[2]+"]")
 		}
+		// every element value once, so that no scalar form is only tested
+		// at the top level
+		out = append(out, "["+strings.Join(convertible(e), ",")+"]")
 		return out
 	}
 	if t.MapDim > 0 {
 		e := values(syntax.TypeId{Tname: t.Tname, ArrayDim: t.MapDim - 1})
 		out := []string{`{"a":` + e[0] + `,"b c":` + e[min(1, len(e)-1)] + `}`, "{}", `{"é\"k":` + e[len(e)-1] + `}`, "null", `{"k-1":null}`}
+		var all []string
+		for i, v := range convertible(e) {
+			all = append(all, fmt.Sprintf(`"k%d":%s`, i, v))
+		}
+		out = append(out, "{"+strings.Join(all, ",")+"}")
 		return out
 	}
 	switch t.Tname {
 	case "int":
 		return []string{"7", "0", "-9007199254740993", "9223372036854775807", "-9223372036854775808", "null"}
 	case "float":
-		return []string{"1.5", "2", "1e21", "5e-324", "-0.0", "0.30000000000000004", "123456789012345680000", "null"}
+		return []string{"1.5", "2", "1e21", "5e-324", "-0.0", "0.30000000000000004", "123456789012345680000",
+			"2.718281828459045", "123456789.125", "16777217.0", "6.02214076e23", "1.7976931348623157e308", "1e-7", "-1.25e-300", "null"}
 	case "string", "txt", "file", "path":
 		return []string{`"/a/b.txt"`, `""`, `"q\"\\é\n\t☺"`, `"\u0000x"`, "null"}
 	case "bool":
@@ -112,6 +121,18 @@ func values(t syntax.TypeId) []string {
 		}
 		return append(out, "null")
 	}
+}
+
+// convertible drops the two scalar values that are known findings on their
+// own (20-digit float, -0.0), so that it does not hide its neighbours inside a collection.
+func convertible(vals []string) []string {
+	var out []string
+	for _, v := range vals {
+		if !strings.Contains(v, "123456789012345680000") && v != "-0.0" {
+			out = append(out, v)
+		}
+	}
+	return out
 }
 
 // numerically exact JSON comparison
@@ -288,6 +309,13 @@ func check(c Case) (out []ev.Finding) {
 }
 
 func sigClass(c Case) string {
+	// a float written with 20+ digits is the same (known) defect wherever
+	// in a value it occurs
+	for _, v := range c.Values {
+		if strings.Contains(v, "123456789012345680000") {
+			return "float=123456789012345680000"
+		}
+	}
 	for _, i := range c.Split {
 		if strings.Contains(c.Values[i], `{"split":[]}`) || strings.Contains(c.Values[i], `{"split":{}}`) {
 			return "split-over-empty-collection"
